@@ -215,6 +215,11 @@ def step (st : S) (toks : List String) : S × String :=
       else (st, "false want " ++ want)
     | _, _, _, _ => (st, "bad-op")
   | ["reset"] => ({}, "ok")        -- the next execution of the same case (operator-level cases)
+  | ["next"] =>
+    -- the next execution on the same cluster and the same ObjectPatcher: it starts from the state the
+    -- documented semantics give for the executions so far (`Spec.runs`), with a new patch file
+    let (_, _, wc, _) := Spec.expectedH concretePf st.garbled (documented st) st.cluster st.writers
+    ({ cluster := wc }, "ok")
   | ["hookrun", f, ok] =>
     -- one execution through taskHandler -> handleRunHook -> Hook.Run (the pinned Run hands over no
     -- bytes of a failed process: `runBytes false`)
